@@ -407,8 +407,8 @@ int main(int argc, char **argv) {
         {.name = "M5-managed-cpu-pinning-refused", .run = m5, .bound_quick = 2, .bound_thorough = 3},
         {.name = "M6-join-timeout-then-join-all", .run = m6, .bound_quick = 2, .bound_thorough = 3},
         {.name = "M8-timeout-reinit-then-join-all", .run = m8, .bound_quick = 3, .bound_thorough = 4},
-        {.name = "M9-create-refused-while-join-all-waits", .run = m9, .bound_quick = 2, .bound_thorough = 3},
-        {.name = "M7c-three-join-all-callers", .run = m7c, .bound_quick = 1, .bound_thorough = 2},
+        {.name = "M9-create-refused-while-join-all-waits", .run = m9, .bound_quick = 2, .bound_thorough = 2}, /* bound 3 exceeds 400000 executions */
+        {.name = "M7c-three-join-all-callers", .run = m7c, .bound_quick = 1, .bound_thorough = 1}, /* bound 2 exceeds 400000 executions */
         {.name = "M10-redundant-library-init-while-thread-parked", .run = m10, .bound_quick = 2, .bound_thorough = 3},
         {.name = "M11-many-outstanding-participants", .run = m11, .bound_quick = 1, .bound_thorough = 1, .horizon = 8000},
         {.name = "M7-two-join-all-callers", .run = m7, .bound_quick = 2, .bound_thorough = 3},
